@@ -32,7 +32,6 @@ void ref_mtf_touch(ref_mtf *m, uint8_t b)
 
 static const int PM2_BYTE[8][2] = { { 0, 3 }, { 8, 3 }, { 16, 4 }, { 32, 5 }, { 64, 5 }, { 96, 5 }, { 128, 6 }, { 192, 6 } };
 static const int PM2_LEN[6][2] = { { 17, 3 }, { 25, 3 }, { 33, 5 }, { 65, 6 }, { 129, 7 }, { 256, 0 } };
-static const int PM2_OT_ENTRIES[4] = { 5, 6, 7, 8 };
 
 static void pm2_load_ctable(ref_pm2_enc *e, const ref_pm2_ctable *t)
 {
